@@ -294,6 +294,12 @@ class PrimaiteGame:
                 new_node.file_system._default_folder_scan_duration = defaults_config["folder_scan_duration"]
             if "folder_restore_duration" in defaults_config:
                 new_node.file_system._default_folder_restore_duration = defaults_config["folder_restore_duration"]
+            # the node's folders exist by now (root and the ones the scenario lists): the defaults are theirs as well
+            for folder in new_node.file_system.folders.values():
+                if "folder_scan_duration" in defaults_config:
+                    folder.scan_duration = defaults_config["folder_scan_duration"]
+                if "folder_restore_duration" in defaults_config:
+                    folder.restore_duration = defaults_config["folder_restore_duration"]
 
             if "users" in node_cfg and new_node.software_manager.software.get("user-manager"):
                 user_manager: UserManager = new_node.software_manager.software["user-manager"]  # noqa
